@@ -434,6 +434,11 @@ func (c *Ctx) Finish(verifDir string) {
 		}
 		confirmed = append(confirmed, v)
 	}
+	if os.Getenv("VERIF_VERBOSE") != "" {
+		for _, v := range confirmed {
+			fmt.Printf("  [all] sub=%s index=%d case=%s: %s\n", v.Sub, v.Index, string(v.Case), firstLine(v.Msg))
+		}
+	}
 	var replayPaths []string
 	perSub := map[string]int{}
 	for _, v := range confirmed {
